@@ -18,6 +18,7 @@ import common
 import gen_common as G
 import gen_checks as GC
 import gen_main2
+import gen_plumb
 from common import coq_string, coq_list, coq_Z
 
 PID = 'C07'
@@ -207,7 +208,7 @@ def run(ctx):
               'exogenous non-unit time-varying XR paths, 1-3 registered cross-zone gifts, 0-2 cross-zone suppliers '
               '(imports), optional gold-standard government; targets valued-zero / numeraire-zero / cross-rate '
               'definitions; plus random _SendMoney/_ReceiveMoney sequences against the Fx.v model'))
-    out.proof = common.proof_status_many([(FAMILY, PROPFILE)] + gen_main2.PROOFS)
+    out.proof = common.proof_status_many([(FAMILY, PROPFILE)] + gen_main2.PROOFS + gen_plumb.PROOFS)
     # (a) bookkeeping correspondence
     n = ctx.scale(300, 4000)
     cases, cmeta = [], []
@@ -239,6 +240,7 @@ def run(ctx):
     # whole-pipeline model of Model.main() for programs with several currency zones (coq/GenMain2, Main2.build2):
     # Main2_fx_valued_zero holds for ALL programs of the language; tied by the whole-program correspondence
     gen_main2.extra(ctx, out, 40, 500)
+    gen_plumb.extra(ctx, out, 24, 300)      # Main2_fx_valued_zero_sem / _multi: semantic side condition only (coq/GenPlumb)
     return out
 
 
